@@ -303,6 +303,11 @@ def r4_nends(repo, report):
     report.ob("C14.R4", "NEndTrimmer patterns", ok, facts=facts, expected="^ followed by one-or-more literal N; one-or-more literal N followed by $", loc=repo.loc(init))
     c, call = repo.need_method("NEndTrimmer", "__call__")
     ps = params(call)
+    from .c03 import unguarded_constant_index
+
+    ung = unguarded_constant_index(call)
+    report.ob("C14.R4", "NEndTrimmer.__call__ accepts the empty read", not ung, facts={"unguarded_constant_index": ung}, expected="no sequence[k] without a test that the sequence is non-empty", loc=repo.loc(call),
+              why=(f"{ung[0]} raises IndexError on an empty read" if ung else ""))
 
     def hook(ex, node, env):
         cn = chain(node.func)
